@@ -571,3 +571,178 @@ Proof.
 Qed.
 
 End Part3.
+
+(* ================= Part 4: what is forwarded is again an accepted stream ================= *)
+
+(* dropping entries from an accepted stream keeps it accepted as long as no kept entry loses
+   its parent directory *)
+Lemma spec_filter (f : stat -> bool) l : forall acc i j,
+  spec_run (map vitem_of acc) (map vitem_of l) i = None ->
+  (forall x q, In x l -> f x = true -> In q (acc ++ l) ->
+     st_path q = parent_of (st_path x) -> st_is_dir q = true -> f q = true) ->
+  spec_run (map vitem_of (filter f acc)) (map vitem_of (filter f l)) j = None.
+Proof.
+  induction l as [|s r IH]; intros acc i j H Hcl; [reflexivity|].
+  cbn [map spec_run] in H. destruct (spec_ok_b (map vitem_of acc) (vitem_of s)) eqn:E; [|discriminate].
+  assert (Hcl' : forall x q, In x r -> f x = true -> In q ((acc ++ [s]) ++ r) ->
+            st_path q = parent_of (st_path x) -> st_is_dir q = true -> f q = true).
+  { intros x q Hx Hfx Hq. apply Hcl; [right; exact Hx|exact Hfx|]. rewrite <- app_assoc in Hq. exact Hq. }
+  change [vitem_of s] with (map vitem_of [s]) in H. rewrite <- map_app in H.
+  cbn [filter]. destruct (f s) eqn:Ef.
+  - cbn [map spec_run].
+    assert (E' : spec_ok_b (map vitem_of (filter f acc)) (vitem_of s) = true).
+    { unfold spec_ok_b in *. apply andb_true_iff in E. destruct E as [E E3].
+      apply andb_true_iff in E. destruct E as [E1 E2]. rewrite E1. cbn [andb].
+      apply andb_true_iff. split.
+      - apply forallb_forall. intros q Hq. rewrite forallb_forall in E2. apply E2.
+        apply in_map_iff in Hq. destruct Hq as (q0 & <- & Hq0). apply in_map. apply filter_In in Hq0. apply Hq0.
+      - apply orb_true_iff in E3. destruct E3 as [E3|E3]; [rewrite E3; reflexivity|].
+        apply orb_true_iff. right. apply existsb_exists in E3. destruct E3 as (q & Hq & E3).
+        apply in_map_iff in Hq. destruct Hq as (q0 & <- & Hq0).
+        apply existsb_exists. exists (vitem_of q0). split; [|exact E3].
+        apply in_map. apply filter_In. split; [exact Hq0|].
+        apply andb_true_iff in E3. destruct E3 as [E3 E5]. apply andb_true_iff in E3. destruct E3 as [E3 _].
+        cbn [vpath visdir vitem_of] in E3, E5. apply bytes_eqb_eq in E3.
+        apply (Hcl s q0); auto; [left; reflexivity|apply in_or_app; left; exact Hq0]. }
+    rewrite E'. replace (map vitem_of (filter f acc) ++ [vitem_of s]) with (map vitem_of (filter f (acc ++ [s]))).
+    + apply (IH (acc ++ [s]) (S i) (S j) H Hcl').
+    + rewrite filter_app, map_app. cbn [filter]. rewrite Ef. reflexivity.
+  - replace (filter f acc) with (filter f (acc ++ [s])).
+    + apply (IH (acc ++ [s]) (S i) j H Hcl').
+    + rewrite filter_app. cbn [filter]. rewrite Ef. apply app_nil_r.
+Qed.
+
+Lemma valid_filter (f : stat -> bool) l :
+  valid_stream l ->
+  (forall x q, In x l -> f x = true -> In q l -> st_path q = parent_of (st_path x) -> st_is_dir q = true -> f q = true) ->
+  valid_stream (filter f l).
+Proof.
+  unfold valid_stream. rewrite !validator_accepts_iff_spec_proof. unfold spec_first_bad. intros H Hcl.
+  apply (spec_filter f l [] 0 0 H). exact Hcl.
+Qed.
+
+Lemma valid_okc l : valid_stream l -> forall x, In x l -> okc (cp x).
+Proof. intros H x Hx. apply (cvalid_later l [] (valid_stream_cvalid l H) x Hx). Qed.
+
+(* an admissible path lies strictly below its parent (and the parent is not the root) *)
+Lemma under_parent q x : okc (cp q) -> okc (cp x) -> st_path q = parent_of (st_path x) ->
+  exists b, cp x = cp q ++ [b].
+Proof.
+  intros Hq Hx E.
+  assert (Hok : ok_path (st_path x) = true) by (rewrite <- (joinc_comps (st_path x)); apply okc_ok_path; exact Hx).
+  destruct (vsplit_ok _ Hok) as (d & b & Ec & Hokc & _ & _ & _ & Hpar).
+  exists b. unfold cp. rewrite Ec, E, Hpar. f_equal.
+  destruct d as [|c d']; [|symmetry; apply comps_joinc; [discriminate|]; eapply okc_prefix; eauto; discriminate].
+  exfalso. unfold cp in Hq. rewrite E, Hpar in Hq. cbn in Hq. destruct Hq as (_ & Hn & _).
+  inversion Hn as [|? ? (Hn1 & _) _]. congruence.
+Qed.
+
+Section Part4.
+Variable sel : stat -> bool.
+
+Lemma needed_parent_closed l : valid_stream l ->
+  forall x q, In x l -> needed sel l x = true -> In q l ->
+    st_path q = parent_of (st_path x) -> st_is_dir q = true -> needed sel l q = true.
+Proof.
+  intros Hv x q Hx Hn Hq E Hd.
+  destruct (under_parent q x (valid_okc l Hv q Hq) (valid_okc l Hv x Hx) E) as [b Hb].
+  unfold needed in Hn. apply orb_true_iff in Hn. destruct Hn as [Hs|Hn].
+  - apply (nd_anc sel l q x); auto. apply under_prefix. exists [b]. split; [discriminate|exact Hb].
+  - apply andb_true_iff in Hn. destruct Hn as [_ Hn]. apply existsb_exists in Hn.
+    destruct Hn as (t & Ht & Hn). apply andb_true_iff in Hn. destruct Hn as [Hst Hu].
+    apply (nd_anc sel l q t); auto. apply under_prefix. apply under_prefix in Hu.
+    destruct Hu as (y & Hy & Ey). exists ([b] ++ y). split; [discriminate|].
+    rewrite Ey. unfold cp in Hb. rewrite Hb, <- app_assoc. reflexivity.
+Qed.
+
+(* ---- hard links ---- *)
+Lemma hl_filter (f : stat -> bool) (L : list stat) :
+  (forall s, In s L -> f s = true -> hl_plain s = true -> has_link s = true ->
+     forall t, In t L -> st_path t = st_linkname s -> f t = true) ->
+  forall l seen seen' i j,
+  (forall x, In x l -> In x L) ->
+  (forall p, mem_bytes p seen = true -> (forall t, In t L -> st_path t = p -> f t = true) -> mem_bytes p seen' = true) ->
+  hl_run seen l i = None -> hl_run seen' (filter f l) j = None.
+Proof.
+  intros Hlc. induction l as [|s r IH]; intros seen seen' i j Hsub HR H; [reflexivity|].
+  cbn [hl_run] in H. destruct (hl_step seen s) as [seen1|] eqn:E; [|discriminate].
+  assert (Hsub' : forall x, In x r -> In x L) by (intros; apply Hsub; right; auto).
+  cbn [filter]. destruct (f s) eqn:Ef.
+  - cbn [hl_run]. unfold hl_step in *. destruct (negb (hl_plain s)) eqn:Ep.
+    + inversion E; subst seen1. apply (IH seen seen' (S i) (S j)); auto.
+    + apply negb_false_iff in Ep. destruct (has_link s) eqn:El.
+      * destruct (mem_bytes (st_linkname s) seen) eqn:Em; [|discriminate]. inversion E; subst seen1.
+        rewrite (HR _ Em).
+        -- apply (IH seen seen' (S i) (S j)); auto.
+        -- intros t Ht Et. apply (Hlc s); auto. apply Hsub. left. reflexivity.
+      * inversion E; subst seen1. apply (IH (st_path s :: seen) (st_path s :: seen') (S i) (S j)); auto.
+        intros p Hp Hall. cbn [mem_bytes] in *. apply orb_true_iff in Hp. apply orb_true_iff.
+        destruct Hp as [Hp|Hp]; [left; exact Hp|right; apply HR; auto].
+  - apply (IH seen1 seen' (S i) j); auto.
+    intros p Hp Hall. unfold hl_step in E. destruct (negb (hl_plain s)).
+    + inversion E; subst seen1. apply HR; auto.
+    + destruct (has_link s).
+      * destruct (mem_bytes (st_linkname s) seen); [|discriminate]. inversion E; subst seen1. apply HR; auto.
+      * inversion E; subst seen1. cbn [mem_bytes] in Hp. apply orb_true_iff in Hp. destruct Hp as [Hp|Hp]; [|apply HR; auto].
+        exfalso. apply bytes_eqb_eq in Hp. subst p.
+        rewrite (Hall s (Hsub s (or_introl eq_refl)) eq_refl) in Ef. discriminate.
+Qed.
+
+Lemma needed_plain l s : hl_plain s = true -> needed sel l s = sel s.
+Proof.
+  unfold hl_plain, needed, st_is_dir. intros H. apply andb_true_iff in H. destruct H as [H _].
+  apply negb_true_iff in H. rewrite H. cbn [andb]. apply orb_false_r.
+Qed.
+
+Lemma hl_needed l : hardlink_check l = None -> link_closed sel l = true ->
+  hardlink_check (filter (needed sel l) l) = None.
+Proof.
+  intros H Hlc. unfold hardlink_check in *. apply (hl_filter (needed sel l) l) with (seen := []) (i := 0); auto;
+    try (intros p Hp; cbn in Hp; discriminate).
+  intros s Hs Hf Hp Hl t Ht Et. unfold link_closed in Hlc. rewrite forallb_forall in Hlc.
+    specialize (Hlc s Hs). rewrite (needed_plain l s Hp) in Hf. rewrite Hf, Hp, Hl in Hlc. cbn in Hlc.
+    rewrite forallb_forall in Hlc. specialize (Hlc t Ht).
+    assert (Eb : bytes_eqb (st_path t) (st_linkname s) = true) by (apply bytes_eqb_eq; exact Et).
+    rewrite Eb in Hlc. cbn in Hlc. unfold needed. rewrite Hlc. reflexivity.
+Qed.
+
+Theorem forwarded_valid_proof stats :
+  valid_stream (recv_stream stats) -> hardlink_check (recv_stream stats) = None ->
+  link_closed sel (recv_stream stats) = true ->
+  valid_stream (r_forwarded (meta_recv sel stats)) /\ hardlink_check (r_forwarded (meta_recv sel stats)) = None.
+Proof.
+  intros Hv Hh Hlc. rewrite (forwarded_exact_proof sel stats Hv). split.
+  - apply valid_filter; [exact Hv|]. intros x q Hx Hn Hq. apply (needed_parent_closed _ Hv x q); auto.
+  - apply hl_needed; auto.
+Qed.
+End Part4.
+
+(* ---- the skipped listing-name entry: when nothing depends on it, what the receiver's
+        validator sees is accepted whenever the announced sequence is ---- *)
+Lemma recv_valid_of_valid_proof stats :
+  valid_stream stats ->
+  (forall t, In t stats -> under listing_name (st_path t) = false) ->
+  valid_stream (recv_stream stats).
+Proof.
+  intros Hv Hdep. unfold recv_stream. apply valid_filter; [exact Hv|].
+  intros x q Hx Hfx Hq E Hd. apply negb_true_iff. destruct (is_listing q) eqn:El; [|reflexivity]. exfalso.
+  unfold is_listing in El. apply bytes_eqb_eq in El.
+  destruct (under_parent q x (valid_okc _ Hv q Hq) (valid_okc _ Hv x Hx) E) as [b Hb].
+  assert (Hu : under listing_name (st_path x) = true).
+  { apply under_prefix. exists [b]. split; [discriminate|]. rewrite <- El. exact Hb. }
+  rewrite (Hdep x Hx) in Hu. discriminate.
+Qed.
+
+Lemma recv_stream_id stats : (forall s, In s stats -> st_path s <> listing_name) -> recv_stream stats = stats.
+Proof.
+  intros H. unfold recv_stream. apply filter_all. intros x Hx. apply negb_true_iff.
+  unfold is_listing. apply bytes_eqb_neq. apply H. exact Hx.
+Qed.
+
+Theorem forwarded_exact_plain_proof sel stats :
+  valid_stream stats -> (forall s, In s stats -> st_path s <> listing_name) ->
+  r_forwarded (meta_recv sel stats) = filter (needed sel stats) stats.
+Proof.
+  intros Hv Hn. pose proof (forwarded_exact_proof sel stats) as H.
+  rewrite (recv_stream_id stats Hn) in H. apply H. exact Hv.
+Qed.
